@@ -8,6 +8,17 @@ EXTENDS AseRender, Functions
 Chk(name, ok) == IF ok THEN {} ELSE {name}
 Idx0(n) == [i \in 1..n |-> i - 1]
 
+\* C01 "iteration visits every entity exactly once in index order" - also through the adapters std builds on nth / size_hint:
+\* the ids from, from + step, ... below n (the harness reports at most 48 of them)
+IterIds(n, from, step) ==
+  LET k == IF from >= n THEN 0 ELSE Min2(48, (n - from + step - 1) \div step) IN [j \in 1..k |-> from + (j - 1) * step]
+IterProtocolOk(p, n) ==
+  /\ p.skip1 = IterIds(n, 1, 1) /\ p.skip_last2 = IterIds(n, Max2(n - 2, 0), 1)
+  /\ p.step2 = IterIds(n, 0, 2) /\ p.step3 = IterIds(n, 0, 3)
+  /\ p.nth1 = (IF n > 1 THEN <<1>> ELSE <<>>) /\ p.after_nth1 = IterIds(n, 2, 1)
+  /\ p.nth_len_none /\ p.nth_max_none /\ p.next_then_nth_max_none
+  /\ p.count = n /\ p.last = (IF n > 0 THEN <<n - 1>> ELSE <<>>) /\ p.size_hint_ok /\ p.zip_names
+
 FirstMatch(names, q) ==
   LET S == {i \in DOMAIN names : names[i] = q} IN IF S = {} THEN None ELSE Some(Min(S) - 1)
 
@@ -117,7 +128,7 @@ Failing(ps, obs) ==
   \cup Chk("parents", Len(obs.layers) = nl /\ LET par == ParentVec(ps) IN \A i \in 1..nl : obs.layers[i].parent = par[i])
   \cup Chk("user_data.layer", Len(obs.layers) = nl /\ \A i \in 1..nl : obs.layers[i].ud = ps.layers[i].ud)
   \cup Chk("visible", obs.visible = VisibleVec(ps))
-  \cup Chk("layers_iter", obs.iter_ids = Idx0(nl))
+  \cup Chk("layers_iter", obs.iter_ids = Idx0(nl) /\ IterProtocolOk(obs.iter_protocol, nl))
   \cup Chk("layer_by_name", /\ \A k \in DOMAIN obs.by_name : obs.by_name[k].hit = FirstMatch(names, obs.by_name[k].q)
                             /\ Small(nl) => Range(names) \subseteq {obs.by_name[k].q : k \in DOMAIN obs.by_name})
   \cup Chk("num_tags", obs.ntags = Len(tags))
@@ -157,4 +168,21 @@ UsableFailing(obs) ==
   Chk("panics", obs.panics = <<>>)
   \cup Chk("frame.dims", \A k \in DOMAIN obs.frames : obs.frames[k].w = obs.w /\ obs.frames[k].h = obs.h)
   \cup Chk("cel.dims", \A k \in DOMAIN obs.cels : ("image" \in DOMAIN obs.cels[k]) => (obs.cels[k].image.w = obs.w /\ obs.cels[k].image.h = obs.h))
+
+\* What is demanded in addition when the specification followed the whole file (no early stop) although it is out of
+\* contract: a cel image is transparent outside the rectangle the cel declares (C06: "the cel's stored pixels placed at its
+\* offset (clipped)") - whatever surplus or missing data the chunk carries. Image cels and links to image cels only.
+InRect(d, X, Y) == X >= d.x /\ X < d.x + d.w /\ Y >= d.y /\ Y < d.y + d.h
+CelOutsideOk(ps, e) ==
+  ("image" \in DOMAIN e /\ "px" \in DOMAIN e.image /\ HasCel(ps, e.f, e.l)) =>
+    LET c == CelAt(ps, e.f, e.l)
+        known == c.kind = "raw" \/ (c.kind = "linked" /\ c.link < ps.hdr.nframes /\ HasCel(ps, c.link, c.l) /\ CelAt(ps, c.link, c.l).kind = "raw")
+    IN known =>
+         LET d == Drawn(ps, c) IN
+         /\ e.image.w = W(ps) /\ e.image.h = H(ps) /\ Len(e.image.px) = W(ps) * H(ps)
+         /\ \A i \in 1..Len(e.image.px) : InRect(d, (i - 1) % W(ps), (i - 1) \div W(ps)) \/ e.image.px[i][4] = 0
+WeakFailing(ps, obs) ==
+  IF obs.render_ok /\ SatMul(W(ps), H(ps)) <= 4096
+  THEN UNION {Chk("cel.outside_rect_transparent", CelOutsideOk(ps, obs.cels[k])) : k \in DOMAIN obs.cels}
+  ELSE {}
 =============================================================================
